@@ -314,3 +314,194 @@ package forwarder
 //@     assert [ppi]  len(arg1) == 1 && arg1[0].Type == gtp5gnl.QER_PPI && arg1[0].Value == iface(nl.AttrU8(v))
 //@   at call UpdateQEROID:
 //@     assert [oid]  len(arg2) == 2 && arg2[0] == lSeid && arg2[1] == qerid && arg3 == attrs
+
+// PDR and FAR towards the kernel (C02): every child IE value is handed on under the attribute of its own kind and
+// under the session and rule id of the request; nested IEs (PDI, F-TEID, outer header creation) keep their structure.
+
+//@ func (g *Gtp5g) CreatePDR(lSeid uint64, req *ie.IE) (err error)
+//@   requires g != nil && g.link != nil && req != nil
+//@   modifies nothing
+//@   serves C02 C07
+//@   loop range(ies):
+//@     modifies nothing
+//@   at call newPdi:
+//@     assert [pdi]  arg0 == i
+//@   at call append#1:
+//@     assert [prec] len(arg1) == 1 && arg1[0].Type == gtp5gnl.PDR_PRECEDENCE && arg1[0].Value == iface(nl.AttrU32(v))
+//@   at call append#2:
+//@     assert [pdi]  len(arg1) == 1 && arg1[0].Type == gtp5gnl.PDR_PDI && arg1[0].Value == iface(v)
+//@   at call append#3:
+//@     assert [ohr]  len(arg1) == 1 && arg1[0].Type == gtp5gnl.PDR_OUTER_HEADER_REMOVAL && arg1[0].Value == iface(nl.AttrU8(v))
+//@   at call append#4:
+//@     assert [far]  len(arg1) == 1 && arg1[0].Type == gtp5gnl.PDR_FAR_ID && arg1[0].Value == iface(nl.AttrU32(v))
+//@   at call append#5:
+//@     assert [qer]  len(arg1) == 1 && arg1[0].Type == gtp5gnl.PDR_QER_ID && arg1[0].Value == iface(nl.AttrU32(v))
+//@   at call append#6:
+//@     assert [urr]  len(arg1) == 1 && arg1[0].Type == gtp5gnl.PDR_URR_ID && arg1[0].Value == iface(nl.AttrU32(v))
+//@   at call append#7:
+//@     assert [sock] len(arg1) == 1 && arg1[0].Type == gtp5gnl.PDR_UNIX_SOCKET_PATH
+//@   at call CreatePDROID:
+//@     assert [oid]  len(arg2) == 2 && arg2[0] == lSeid && arg2[1] == pdrid && arg3 == attrs
+
+//@ func (g *Gtp5g) UpdatePDR(lSeid uint64, req *ie.IE) (err error)
+//@   requires g != nil && g.link != nil && req != nil
+//@   modifies nothing
+//@   serves C02 C07
+//@   loop range(ies):
+//@     modifies nothing
+//@   at call newPdi:
+//@     assert [pdi]  arg0 == i
+//@   at call append#1:
+//@     assert [prec] len(arg1) == 1 && arg1[0].Type == gtp5gnl.PDR_PRECEDENCE && arg1[0].Value == iface(nl.AttrU32(v))
+//@   at call append#2:
+//@     assert [pdi]  len(arg1) == 1 && arg1[0].Type == gtp5gnl.PDR_PDI && arg1[0].Value == iface(v)
+//@   at call append#3:
+//@     assert [ohr]  len(arg1) == 1 && arg1[0].Type == gtp5gnl.PDR_OUTER_HEADER_REMOVAL && arg1[0].Value == iface(nl.AttrU8(v))
+//@   at call append#4:
+//@     assert [far]  len(arg1) == 1 && arg1[0].Type == gtp5gnl.PDR_FAR_ID && arg1[0].Value == iface(nl.AttrU32(v))
+//@   at call append#5:
+//@     assert [qer]  len(arg1) == 1 && arg1[0].Type == gtp5gnl.PDR_QER_ID && arg1[0].Value == iface(nl.AttrU32(v))
+//@   at call append#6:
+//@     assert [urr]  len(arg1) == 1 && arg1[0].Type == gtp5gnl.PDR_URR_ID && arg1[0].Value == iface(nl.AttrU32(v))
+//@   at call UpdatePDROID:
+//@     assert [oid]  len(arg2) == 2 && arg2[0] == lSeid && arg2[1] == pdrid && arg3 == attrs
+
+//@ func (g *Gtp5g) newPdi(i *ie.IE) (attrs nl.AttrList, err error)
+//@   requires g != nil && i != nil
+//@   modifies nothing
+//@   serves C02 C07
+//@   loop range(ies):
+//@     modifies nothing
+//@     invariant [sdf] forall j int :: 0 <= j && j < len(sdfIEs) ==> sdfIEs[j] != nil
+//@   loop range(sdfIEs):
+//@     modifies nothing
+//@   at call append#1:
+//@     assert [srcif] len(arg1) == 1 && arg1[0].Type == gtp5gnl.PDI_SRC_INTF && arg1[0].Value == iface(nl.AttrU8(v))
+//@   at call append#2:
+//@     assert [fteid] len(arg1) == 1 && arg1[0].Type == gtp5gnl.PDI_F_TEID && typeis(arg1[0].Value, nl.AttrList) && len(arg1[0].Value.(nl.AttrList)) == 2 &&
+//@                    arg1[0].Value.(nl.AttrList)[0].Type == gtp5gnl.F_TEID_I_TEID && arg1[0].Value.(nl.AttrList)[0].Value == iface(nl.AttrU32(v.TEID)) &&
+//@                    arg1[0].Value.(nl.AttrList)[1].Type == gtp5gnl.F_TEID_GTPU_ADDR_IPV4 && arg1[0].Value.(nl.AttrList)[1].Value == iface(nl.AttrBytes(v.IPv4Address))
+//@   at call append#3:
+//@     assert [ueip]  len(arg1) == 1 && arg1[0].Type == gtp5gnl.PDI_UE_ADDR_IPV4 && arg1[0].Value == iface(nl.AttrBytes(v.IPv4Address))
+//@   at call newSdfFilter:
+//@     assert [swap]  arg0 == x && arg1 == srcIf
+//@   at call append#5:
+//@     assert [sdf]   len(arg1) == 1 && arg1[0].Type == gtp5gnl.PDI_SDF_FILTER && arg1[0].Value == iface(v)
+
+//@ func (g *Gtp5g) newForwardingParameter(ies []*ie.IE) (attrs nl.AttrList, err error)
+//@   requires g != nil && (forall j int :: 0 <= j && j < len(ies) ==> ies[j] != nil)
+//@   modifies nothing
+//@   serves C02 C07
+//@   loop range(ies):
+//@     modifies nothing
+//@   at call append#1:
+//@     assert [desc] len(arg1) == 1 && arg1[0].Type == gtp5gnl.OUTER_HEADER_CREATION_DESCRIPTION && arg1[0].Value == iface(nl.AttrU16(v.OuterHeaderCreationDescription))
+//@   at call append#2:
+//@     assert [teid] len(arg1) == 1 && arg1[0].Type == gtp5gnl.OUTER_HEADER_CREATION_O_TEID && arg1[0].Value == iface(nl.AttrU32(v.TEID))
+//@   at call append#3:
+//@     assert [gtpport] len(arg1) == 1 && arg1[0].Type == gtp5gnl.OUTER_HEADER_CREATION_PORT && arg1[0].Value == iface(nl.AttrU16(2152))
+//@   at call append#4:
+//@     assert [port] len(arg1) == 1 && arg1[0].Type == gtp5gnl.OUTER_HEADER_CREATION_PORT && arg1[0].Value == iface(nl.AttrU16(v.PortNumber))
+//@   at call append#5:
+//@     assert [peer] len(arg1) == 1 && arg1[0].Type == gtp5gnl.OUTER_HEADER_CREATION_PEER_ADDR_IPV4 && arg1[0].Value == iface(nl.AttrBytes(v.IPv4Address))
+//@   at call append#6:
+//@     assert [ohc]  len(arg1) == 1 && arg1[0].Type == gtp5gnl.FORWARDING_PARAMETER_OUTER_HEADER_CREATION && arg1[0].Value == iface(hc)
+//@   at call append#7:
+//@     assert [policy] len(arg1) == 1 && arg1[0].Type == gtp5gnl.FORWARDING_PARAMETER_FORWARDING_POLICY && arg1[0].Value == iface(nl.AttrString(v))
+//@   at call append#8:
+//@     assert [smreq] len(arg1) == 1 && arg1[0].Type == gtp5gnl.FORWARDING_PARAMETER_PFCPSM_REQ_FLAGS && arg1[0].Value == iface(nl.AttrU8(v))
+
+//@ func (g *Gtp5g) CreateFAR(lSeid uint64, req *ie.IE) (err error)
+//@   requires g != nil && g.link != nil && req != nil
+//@   modifies nothing
+//@   serves C02 C07
+//@   loop range(ies):
+//@     modifies nothing
+//@   at call newForwardingParameter:
+//@     assert [fp]   arg0 == xs
+//@   at call append#1:
+//@     assert [act]  len(arg1) == 1 && arg1[0].Type == gtp5gnl.FAR_APPLY_ACTION && arg1[0].Value == iface(nl.AttrU16(act.Flags))
+//@   at call append#2:
+//@     assert [fp]   len(arg1) == 1 && arg1[0].Type == gtp5gnl.FAR_FORWARDING_PARAMETER && arg1[0].Value == iface(v)
+//@   at call append#3:
+//@     assert [bar]  len(arg1) == 1 && arg1[0].Type == gtp5gnl.FAR_BAR_ID && arg1[0].Value == iface(nl.AttrU8(v))
+//@   at call CreateFAROID:
+//@     assert [oid]  len(arg2) == 2 && arg2[0] == lSeid && arg2[1] == farid && arg3 == attrs
+
+//@ func (g *Gtp5g) newSdfFilter(i *ie.IE, srcIf uint8) (attrs nl.AttrList, err error)
+//@   requires g != nil && i != nil
+//@   modifies nothing
+//@   serves C02 C16 C07
+//@   at call newFlowDesc:
+//@     assert [swap] arg0 == v.FlowDescription && arg1 == (srcIf == ie.SrcInterfaceAccess)
+
+// ---------------------------------------------------------------------------------------------
+// SDF flow descriptions (C16).  Oracle: the IPFilterRule grammar quoted at the top of flowdesc.go (TS 29.212 5.4.2 /
+// RFC 6733 4.3): action dir proto "from" src [ports] "to" dst [ports].  The contract is at token level: tokens are
+// strings.Fields(s); numbers and addresses are what strconv.ParseUint / net.ParseCIDR / net.ParseIP make of a token
+// (assumed deterministic, A-LEXPURE / A-NETPURE / A-PARSEUINT).
+
+// Port lists are packed one 32-bit word per entry, first port in the high half, last port (or the same port) in the
+// low half, in the machine's byte order (gtp5g reads them back as u32).
+//@ func convertSlice(ports [][]uint16) (b []byte)
+//@   requires forall i int :: 0 <= i && i < len(ports) ==> len(ports[i]) <= 2
+//@   ensures [len]    len(b) == 4 * len(ports) && fresh(b)
+//@   ensures [single] forall i int :: 0 <= i && i < len(ports) && len(ports[i]) == 1 ==>
+//@                      b[4*i] == uint8(ports[i][0]) && b[4*i+1] == uint8(ports[i][0] >> 8) && b[4*i+2] == uint8(ports[i][0]) && b[4*i+3] == uint8(ports[i][0] >> 8)
+//@   ensures [range]  forall i int :: 0 <= i && i < len(ports) && len(ports[i]) == 2 ==>
+//@                      b[4*i] == uint8(ports[i][1]) && b[4*i+1] == uint8(ports[i][1] >> 8) && b[4*i+2] == uint8(ports[i][0]) && b[4*i+3] == uint8(ports[i][0] >> 8)
+//@   modifies nothing
+//@   serves C16 C07
+//@   loop range(ports):
+//@     modifies b[_]
+//@     invariant [off]    off == 4 * idx
+//@     invariant [single] forall i int :: 0 <= i && i < idx && len(ports[i]) == 1 ==>
+//@                      b[4*i] == uint8(ports[i][0]) && b[4*i+1] == uint8(ports[i][0] >> 8) && b[4*i+2] == uint8(ports[i][0]) && b[4*i+3] == uint8(ports[i][0] >> 8)
+//@     invariant [range]  forall i int :: 0 <= i && i < idx && len(ports[i]) == 2 ==>
+//@                      b[4*i] == uint8(ports[i][1]) && b[4*i+1] == uint8(ports[i][1] >> 8) && b[4*i+2] == uint8(ports[i][0]) && b[4*i+3] == uint8(ports[i][0] >> 8)
+
+//@ func ParseFlowDescPorts(s string) (vals [][]uint16, err error)
+//@   ensures [shape] err == nil ==> forall i int :: 0 <= i && i < len(vals) ==> 1 <= len(vals[i]) && len(vals[i]) <= 2
+//@   modifies nothing
+//@   serves C16 C07
+//@   loop range(strings.Split(s, ",")):
+//@     modifies nothing
+//@     invariant [shape] forall i int :: 0 <= i && i < len(vals) ==> 1 <= len(vals[i]) && len(vals[i]) <= 2
+//@   at call ParseUint#1:
+//@     assert [single] arg0 == digit[0] && arg1 == 10 && arg2 == 16 && len(digit) == 1
+//@   at call ParseUint#2:
+//@     assert [start]  arg0 == digit[0] && arg1 == 10 && arg2 == 16 && len(digit) == 2
+//@   at call ParseUint#3:
+//@     assert [end]    arg0 == digit[1] && arg1 == 10 && arg2 == 16 && len(digit) == 2
+//@   at call append#1:
+//@     assert [one]    len(arg1) == 1 && len(arg1[0]) == 1 && arg1[0][0] == uint16(v)
+//@   at call append#2:
+//@     assert [two]    len(arg1) == 1 && len(arg1[0]) == 2 && arg1[0][0] == uint16(start) && arg1[0][1] == uint16(end)
+
+//@ func ParseFlowDescIPNet(s string) (n *net.IPNet, err error)
+//@   ensures [ok]   err == nil ==> n != nil
+//@   ensures [any]  s == "any" || s == "assigned" ==> err == nil && fresh(n)
+//@   modifies nothing
+//@   serves C16 C07
+//@   at call CIDRMask#1:
+//@     assert [anymask]  (s == "any" || s == "assigned") && arg0 == 0 && arg1 == 128
+//@   at call CIDRMask#2:
+//@     assert [hostmask] arg0 == len(ip) * 8 && arg1 == len(ip) * 8
+
+//@ func ParseFlowDesc(s string) (fd *FlowDesc, err error)
+//@   ensures [ok]     err == nil ==> fd != nil && fresh(fd) && fd.Src != nil && fd.Dst != nil
+//@   ensures [action] err == nil ==> fd.Action == "permit" && (fd.Dir == "in" || fd.Dir == "out")
+//@   ensures [ports]  err == nil ==> (forall i int :: 0 <= i && i < len(fd.SrcPorts) ==> 1 <= len(fd.SrcPorts[i]) && len(fd.SrcPorts[i]) <= 2) &&
+//@                                  (forall i int :: 0 <= i && i < len(fd.DstPorts) ==> 1 <= len(fd.DstPorts[i]) && len(fd.DstPorts[i]) <= 2)
+//@   modifies nothing
+//@   serves C16 C07
+//@   at call ParseUint:
+//@     assert [proto]  arg0 == token[2] && token[2] != "ip" && arg1 == 10 && arg2 == 8 && token[0] == "permit" && token[1] == fd.Dir
+//@   at call ParseFlowDescIPNet#1:
+//@     assert [src]    arg0 == token[4] && token[3] == "from" && token[0] == "permit" && token[1] == fd.Dir && (token[2] == "ip" ==> fd.Proto == 0xff)
+//@   at call ParseFlowDescPorts#1:
+//@     assert [sports] arg0 == token[5] && fd.Src != nil
+//@   at call ParseFlowDescIPNet#2:
+//@     assert [dst]    (arg0 == token[6] && token[5] == "to" && fd.SrcPorts == nil) || (arg0 == token[7] && token[6] == "to" && len(token) > 7)
+//@   at call ParseFlowDescPorts#2:
+//@     assert [dports] (arg0 == token[7] && token[5] == "to") || (arg0 == token[8] && token[6] == "to")
